@@ -64,7 +64,7 @@ def run(ctx):
         v = FnView.get(P, f)
         minp = fld(arg(1), "min_signers")
         refusal(ctx, f, "SEP", "G29:threshold-must-be-known", [("min_signers.ok_or", succ_fact(
-            lambda t: t[0] == "ok_or" and minp(t[1])))], ok_sinks(f), require_fail_err=False)
+            minp))], ok_sinks(f), require_fail_err=False)
         refusal(ctx, f, "SEP", "G29b:(t,|ids|)-validated",
                 [("validate_num_of_signers", succ_fact(lambda t: is_call(t, name="validate_num_of_signers")
                                                        and some(minp)(t[2][0]) and mentions(t[2][1], length(arg(2))))),
@@ -217,8 +217,8 @@ def run(ctx):
         src3 = lambda s: mentions(s, lambda u: is_call(u, name="from_dkg_commitments"))
         forall_loop(ctx, f, "LOOPDOM", "G35:unknown-participant-refused", src3,
                     [("old.verifying_shares.get(id).ok_or", lambda item: succ_fact(
-                        lambda t: t[0] == "ok_or" and is_call(t[1], name="get") and fld(arg(4), "verifying_shares")(t[1][2][0])
-                        and tfield(item, 0)(t[1][2][1])))], require_fail_err=False)
+                        lambda t: is_call(t, name="get") and fld(arg(4), "verifying_shares")(t[2][0])
+                        and tfield(item, 0)(t[2][1])))], require_fail_err=False)
         oks = ok_values(f, v)
         if len(oks) == 1 and oks[0][0] == "agg" and oks[0][1] == "tuple":
             kp, pkp = oks[0][4][0][1], oks[0][4][1][1]
